@@ -62,6 +62,13 @@ func TestC07(t *testing.T) {
 			}
 		}
 	}
+	// the cancellation lands inside NewStream's transport Write
+	for _, sc := range c07OpenCancelScenarios() {
+		if want(idx) {
+			runCwScenario(t, idx, "c07", sc, em)
+		}
+		idx++
+	}
 	// regression of D-07s with the forced schedule (the select of the loop's Read is random: 40 repetitions)
 	for i := 0; i < 40; i++ {
 		if want(idx) {
